@@ -453,7 +453,24 @@ func (g *jsGen) expr(d int) string {
 		return "(" + op + g.paren(g.expr(d+1)) + ")"
 	case 14, 15:
 		c, a, b := g.expr(d+1), g.expr(d+1), g.expr(d+1)
-		switch r.Intn(14) {
+		switch r.Intn(17) {
+		case 14:
+			// both branches call the same function, one with a spread argument: not mergeable into f(c?x:y)
+			v := g.someVar(false)
+			return "(" + v + "?h(" + g.nextSite() + ",...[" + g.number() + "," + g.number() + "]):h(" + g.nextSite() + "," + g.paren(a) + "))"
+		case 15:
+			v := g.someVar(false)
+			arr := r.Pick([]string{"[1,2]", "\"ab\"", "[[3],4]"})
+			fn := r.Pick([]string{"String", "Array.of", "Math.max", "h"})
+			if r.Bool() {
+				return "h(" + g.nextSite() + "," + v + "?" + fn + "(..." + arr + "):" + fn + "(" + arr + "))"
+			}
+			return "h(" + g.nextSite() + "," + v + "?" + fn + "(" + arr + "):" + fn + "(..." + arr + "))"
+		case 16:
+			// properties named by integers beyond 2^53, written as strings
+			k := r.Pick([]string{"9007199254740993", "9007199254740992", "18014398509481985", "1234567890123456", "12345678901234567"})
+			// (built by index assignment: string keys in object literals are known finding js-string-key-noncanonical-number)
+			return "((o)=>{o[\"9007199254740992\"]=\"even\";o[\"" + k + "\"]=\"k\";return o[\"" + k + "\"]+Object.keys(o).length})({})"
 		case 12, 13:
 			// null tests whose nullish branch is a literal null/undefined, applied to a value that IS nullish half of the
 			// time (round-4 seed: `a==null?null:a.b` must not become `a?.b`, which yields undefined)
@@ -525,7 +542,7 @@ func (g *jsGen) expr(d int) string {
 	case 24:
 		return g.objectLit() + r.Pick([]string{".a", "[\"a\"]", ".x", "?.k"})
 	case 25:
-		return g.arrayLit() + r.Pick([]string{".length", "[0]", ".map(x=>x)", ".join()", ".indexOf(1)", "[\"1\"]", "[\"0\"]", "[\"1.0\"]", "[\"01\"]", "[\".0\"]", "[\"1.\"]", "[\"0.0\"]", "[\"1e0\"]"})
+		return g.arrayLit() + r.Pick([]string{".length", "[0]", ".map(x=>x)", ".join()", ".indexOf(1)", "[\"1\"]", "[\"0\"]", "[\"1.0\"]", "[\"01\"]", "[\".0\"]", "[\"1.\"]", "[\"0.0\"]", "[\"1e0\"]", "[\"9007199254740993\"]", "[\"4294967296\"]", "[\"123456789012345678\"]"})
 	case 26:
 		return g.arrowFunc(d)
 	case 27:
